@@ -5,35 +5,45 @@
 EXTENDS AdvSchedule, IOUtils, TLCExt
 
 Traces == JsonDeserialize(IOEnv.TRACE_FILE)
-VARIABLES tid, l, cbSeen        \* cbSeen: callbacks of the current step already matched
-tvars == <<vars, tid, l, cbSeen>>
+VARIABLES tid, l, cbSeen,       \* cbSeen: callbacks of the current step already matched
+          seen                  \* (shuffle = TRUE, extension) row ids already used in the current epoch
+tvars == <<vars, tid, l, cbSeen, seen>>
 
 Ev == Traces[tid].events
-TInit == /\ tid \in 1..Len(Traces) /\ l = 1 /\ cbSeen = 0
+TInit == /\ tid \in 1..Len(Traces) /\ l = 1 /\ cbSeen = 0 /\ seen = {}
          /\ cfg = Traces[tid].cfg
          /\ InitRest
 
 IsEvent(name) == l <= Len(Ev) /\ Ev[l].ev = name /\ l' = l + 1 /\ tid' = tid
 
+\* without shuffling the step trains on rows Lo..Hi-1; with shuffle = TRUE (extension beyond C17) it trains on Hi - Lo
+\* rows that were not used before in this epoch, so that every epoch uses every row exactly once
+Shuffled == Traces[tid].shuffle
+IdSet(e) == {e.ids[i] : i \in 1..Len(e.ids)}
 TStep == /\ IsEvent("step") /\ cbSeen = 0
          /\ TrainStep
-         /\ Ev[l].lo = Lo /\ Ev[l].hi = Hi /\ Ev[l].n_iter = nIter + 1
+         /\ Ev[l].n_iter = nIter + 1
+         /\ IF Shuffled
+            THEN /\ Len(Ev[l].ids) = Hi - Lo /\ Cardinality(IdSet(Ev[l])) = Hi - Lo
+                 /\ IdSet(Ev[l]) \subseteq 0..(cfg.n - 1) /\ IdSet(Ev[l]) \cap seen = {}
+                 /\ seen' = IF Hi = cfg.n THEN {} ELSE seen \cup IdSet(Ev[l])
+            ELSE /\ Ev[l].lo = Lo /\ Ev[l].hi = Hi /\ seen' = seen
          /\ cbSeen' = 0
 \* the k callback events of one step are consumed one by one; the spec's Callback action fires with the last
 TCbPart == /\ IsEvent("cb") /\ phase = "callback" /\ cbSeen + 1 < cfg.k
            /\ Ev[l].step = nIter /\ Ev[l].k = cbSeen + 1
            /\ Ev[l].stop = (cfg.stop = nIter /\ cfg.who = cbSeen + 1)
-           /\ cbSeen' = cbSeen + 1 /\ UNCHANGED vars
+           /\ cbSeen' = cbSeen + 1 /\ UNCHANGED <<vars, seen>>
 TCbLast == /\ IsEvent("cb") /\ cbSeen + 1 = cfg.k
            /\ Ev[l].step = nIter /\ Ev[l].k = cfg.k
            /\ Ev[l].stop = (cfg.stop = nIter /\ cfg.who = cfg.k)
            /\ Callback
-           /\ cbSeen' = 0
+           /\ cbSeen' = 0 /\ seen' = seen
 TEnd  == /\ IsEvent("end") /\ cbSeen = 0
          /\ phase = "done"
          /\ Ev[l].n_iter = nIter
          /\ PrintT(<<"ACCEPT", tid>>)
-         /\ cbSeen' = 0 /\ UNCHANGED vars
+         /\ cbSeen' = 0 /\ UNCHANGED <<vars, seen>>
 TNext == TStep \/ TCbPart \/ TCbLast \/ TEnd
 TSpec == TInit /\ [][TNext]_tvars
 Diag == PrintT(<<"AT", tid, l>>)
